@@ -32,7 +32,8 @@ def sanitized(config, profile, bin, args=(), tag="", **kw):
 
 
 def c01(tier, seed):
-    cfgs = ["d", "c", "rf", "crf"] if tier == "quick" else ["d", "c", "p", "r", "f", "rf", "crf", "nd", "nc", "ncrf"]
+    # nc = compact without std: the fast path multiplies by powers computed with the crate-local libm
+    cfgs = ["d", "c", "rf", "crf", "nc"] if tier == "quick" else ["d", "c", "p", "r", "f", "rf", "crf", "nd", "nc", "ncrf"]
     runs = [run(c, "rel", "c01") for c in cfgs]
     runs += [run(c, "dbg", "c01", ["small=40"], tag="small") for c in (["d", "c"] if tier == "quick" else cfgs)]
     return runs
@@ -238,7 +239,7 @@ def c17(tier, seed):
 
 
 def c16(tier, seed):
-    cfgs = ["d", "c", "p", "r", "f", "rf", "crf", "nd"]
+    cfgs = ["d", "c", "p", "r", "f", "rf", "crf", "nd", "nc"]
     if tier == "thorough":
         # the whole lattice {std} x {compact} x {-, power-of-two, radix} x {format}
         cfgs = []
@@ -404,7 +405,7 @@ META = {
         "assumptions": [],
     },
     "C16": {
-        "rule": "one fixed seeded workload for the default (decimal, STANDARD) API, identical source and inputs in every build configuration (quick: d, c, p, r, f, rf, crf, no-std d, + debug-assertion builds of d and crf; "
+        "rule": "one fixed seeded workload for the default (decimal, STANDARD) API, identical source and inputs in every build configuration (quick: d, c, p, r, f, rf, crf, no-std d, no-std compact, + debug-assertion builds of d and crf; "
         "thorough: all 24 members of {std} x {compact} x {-, power-of-two, radix} x {format}): parse and parse_partial of f64/f32 on the halfway/tie/limit families of every 3rd (thorough: every) binade, the structure family "
         "(zero runs, exponent sweeps, fast-path limits), every 1-2 byte string over a 19-symbol alphabet, spliced special-string / numeral seeds for all 14 types, numerals around every integer type's limits (+-2, extra digit, "
         "leading zeros, junk, truncations); write of boundary + random values of all 12 integer types and of writer-directed f64/f32 values incl. NaN/inf. Every call/return event is rendered as a text record (value bits, count, "
